@@ -5,6 +5,7 @@
 D="$1"; shift
 ID=$(basename "$D")
 PID=$(python3 -c "import json,sys; print(json.load(open('$D/meta.json'))['property'])")
+VD=${VERIF_DIR:-/verif}
 cd /repo || exit 3
 [ -z "$(git status --porcelain)" ] || { echo "/repo not clean"; exit 3; }
 OUT=/verif/seeded/$ID
@@ -16,7 +17,7 @@ git apply $OUT/patch.diff || { echo "$ID: patch does not apply"; rm -rf $T; exit
 TESTS=$(/venv/bin/python -m pytest -q -p no:cacheprovider 2>&1 | tail -1)
 RES=""
 for P in $PID "$@"; do
-  ( cd /verif && ./check $P > $T/check_$P.txt 2>&1 ); RC=$?
+  ( cd $VD && ./check $P > $T/check_$P.txt 2>&1 ); RC=$?
   V=$(grep -c "^VIOLATION" $T/check_$P.txt)
   FIRST=$(grep -m1 -B1 "^VIOLATION" $T/check_$P.txt | head -1 | cut -c1-200)
   U=$(grep -c "^UNDECIDED" $T/check_$P.txt)
